@@ -118,9 +118,15 @@ func extKind(e tls.TLSExtension) int {
 	case *tls.PSKKeyExchangeModesExtension:
 		return 3
 	case *tls.GenericExtension:
+		// an extension given as raw bytes is on the wire like the typed one, but the library does not see a session
+		// extension in it: extended_master_secret and psk_key_exchange_modes only matter on the wire
 		switch x.Id {
 		case 23:
 			return 2
+		case 45:
+			return 3
+		case 35:
+			return 5 // session_ticket on the wire only
 		}
 	}
 	return 4
@@ -201,6 +207,77 @@ func dropKinds(spec *tls.ClientHelloSpec, drop []int) {
 		}
 	}
 	spec.Extensions = keep
+}
+
+// genericize replaces the typed extensions of the given kinds by a GenericExtension with the same id and body
+func genericize(spec *tls.ClientHelloSpec, kinds []int) error {
+	for i, e := range spec.Extensions {
+		k := extKind(e)
+		hit := false
+		for _, g := range kinds {
+			if g == k {
+				hit = true
+			}
+		}
+		if !hit {
+			continue
+		}
+		if _, isGeneric := e.(*tls.GenericExtension); isGeneric {
+			continue
+		}
+		if k == 0 {
+			// an uninitialised session ticket extension has an empty body
+			spec.Extensions[i] = &tls.GenericExtension{Id: 35}
+			continue
+		}
+		b := make([]byte, e.Len())
+		if n, err := e.Read(b); n != len(b) || (err != nil && err != io.EOF) {
+			return fmt.Errorf("cannot marshal extension %T: %v", e, err)
+		}
+		if len(b) < 4 {
+			return fmt.Errorf("extension %T too short", e)
+		}
+		spec.Extensions[i] = &tls.GenericExtension{Id: uint16(b[0])<<8 | uint16(b[1]), Data: append([]byte(nil), b[4:]...)}
+	}
+	return nil
+}
+
+// customGeneric: HelloCustom + ApplyPreset(UTLSIdToSpec(base) with some typed extensions given as GenericExtension)
+func customGeneric(name string, base tls.ClientHelloID, kinds ...int) parrot {
+	return customParrot(name, func() (*tls.ClientHelloSpec, error) {
+		spec, err := tls.UTLSIdToSpec(base)
+		if err != nil {
+			return nil, err
+		}
+		if err := genericize(&spec, kinds); err != nil {
+			return nil, err
+		}
+		return &spec, nil
+	})
+}
+
+// customFingerprintedUnknown: the Fingerprinter (AllowBluntMimicry) applied to a ClientHello of base that also carries
+// an extension id the library has no type for
+func customFingerprintedUnknown(name string, base tls.ClientHelloID) parrot {
+	return customParrot(name, func() (*tls.ClientHelloSpec, error) {
+		spec, err := tls.UTLSIdToSpec(base)
+		if err != nil {
+			return nil, err
+		}
+		ext := append([]tls.TLSExtension{}, spec.Extensions[:1]...)
+		ext = append(ext, &tls.GenericExtension{Id: 0xff7f, Data: []byte{1, 2, 3}})
+		spec.Extensions = append(ext, spec.Extensions[1:]...)
+		uc := tls.UClient(nopConn{}, &tls.Config{ServerName: "a.test", OmitEmptyPsk: true}, tls.HelloCustom)
+		if err := uc.ApplyPreset(&spec); err != nil {
+			return nil, err
+		}
+		if err := uc.BuildHandshakeState(); err != nil {
+			return nil, err
+		}
+		raw := uc.HandshakeState.Hello.Raw
+		rec := append([]byte{22, 3, 1, byte(len(raw) >> 8), byte(len(raw))}, raw...)
+		return (&tls.Fingerprinter{AllowBluntMimicry: true}).FingerprintClientHello(rec)
+	})
 }
 
 // customFromID: HelloCustom + ApplyPreset(UTLSIdToSpec(base) minus some extension kinds)
